@@ -8,7 +8,7 @@ IMPORTS = ['C18/bij_ctor_rejects_noninjective', 'C18/bij_inverse_roundtrip', 'C1
 TRUSTED = ['Bijection dictionary algebra (C18)', 'deepcopy semantics of block objects']
 ASSUMPTIONS = ['the Coq theorems state the renaming laws for the abstract M.inv / M sandwich and check the composition order extracted from the source; '
                'the behaviour of every block type under renaming histories is checked on the implementation (oracle), not derived',
-               'remapped SolvedBlock with caller-supplied Js: oracle only']
+               'remapped SolvedBlock inside a model / with caller-supplied Js: oracle only (found D30)']
 HEADER = 'From Coq Require Import ZArith List.\nImport ListNotations.\nOpen Scope Z_scope.\n'
 
 SRC = '''import numpy as np
@@ -41,6 +41,33 @@ def eqs2(u1, u2, z):
 def extra2(u1, u2, zz):
     out = u1 + 3 * u2(+1) + 0 * zz           # zz affects nothing
     return out
+
+@simple
+def drive(shock, X):
+    zin = 1 + shock + 0.25 * X(-1)
+    return zin
+
+@solved(unknowns={'k': (-10.0, 10.0)}, targets=['kres'], solver='brentq')
+def ksolved(k, zin, c0):
+    kres = 4 * k - k(-1) - zin - 0.125 * k * k(+1) + c0
+    ky = k + 0.5 * zin
+    return kres, ky
+
+@solved(unknowns={'kk': (-10.0, 10.0)}, targets=['kres'], solver='brentq')
+def ksolved_renamed(kk, zz, c0):
+    kres = 4 * kk - kk(-1) - zz - 0.125 * kk * kk(+1) + c0
+    yy = kk + 0.5 * zz
+    return kres, yy
+
+@simple
+def drive_renamed(shock, X):
+    zz = 1 + shock + 0.25 * X(-1)
+    return zz
+
+@simple
+def close(kk, yy, X):
+    xres = X - 0.5 * kk - 0.25 * yy(+1)
+    return xres
 '''
 
 
@@ -505,6 +532,43 @@ def check_dissolve_renamed():
     return out, n
 
 
+def check_remapped_solved_in_model():
+    """D30: a REMAPPED solved block inside a model, general-equilibrium methods and caller-supplied saved Jacobians, vs the same equations written with the new names"""
+    m = module()
+    from sequence_jacobian import combine
+    out, n, T = [], 0, 8
+    ren = {'k': 'kk', 'zin': 'zz', 'ky': 'yy'}
+    cal = dict(shock=0.0, X=1.0, c0=0.25)
+    ref = combine([m.drive_renamed, m.ksolved_renamed, m.close], name='ref')
+    mod = combine([m.drive_renamed, m.ksolved.remap(ren), m.close], name='rem')
+    sh = {'shock': 0.05 * 0.5 ** np.arange(T)}
+    opts = lambda name: {name: dict(verbose=False), 'ksolved': dict(verbose=False), 'ksolved_renamed': dict(verbose=False)}
+    ss0, ss1 = ref.steady_state(cal), mod.steady_state(cal)
+    calls = [('solve_impulse_linear', lambda b, ss: b.solve_impulse_linear(ss, ['X'], ['xres'], sh)),
+             ('solve_impulse_nonlinear', lambda b, ss: b.solve_impulse_nonlinear(ss, ['X'], ['xres'], sh, options=opts(b.name))),
+             ('impulse_linear with Js=partial_jacobians', lambda b, ss: b.impulse_linear(ss, sh, Js=b.partial_jacobians(ss, ['shock', 'X'], T=T))),
+             ('impulse_nonlinear with Js=partial_jacobians', lambda b, ss: b.impulse_nonlinear(ss, sh, Js=b.partial_jacobians(ss, ['shock', 'X'], T=T), options=opts(b.name))),
+             ('solved block impulse_linear with Js', lambda b, ss: b.blocks[[x.name for x in b.blocks].index('ksolved' if b.name == 'rem' else 'ksolved_renamed')].impulse_linear(
+                 ss, {'zz': sh['shock']}, Js=b.partial_jacobians(ss, ['shock', 'X'], T=T)))]
+    for label, f in calls:
+        n += 1
+        bad = []
+        try:
+            want = f(ref, ss0)
+        except Exception as ex:
+            out.append(dict(what=f'D30 probe: the reference model failed: {type(ex).__name__}: {ex}', input=dict(kind='remapped-solved-in-model', call=label), signature=dict(op='raise')))
+            continue
+        try:
+            got = f(mod, ss1)
+            bad = [k for k in want.toplevel if k not in got.toplevel or not np.allclose(got[k], want[k], atol=1e-9)]
+        except Exception as ex:
+            bad = [f'raised {type(ex).__name__}: {ex}']
+        if bad:
+            C.push(out, dict(what='a model containing a remapped solved block does not behave like the same equations written with the new names', input=dict(kind='remapped-solved-in-model', call=label, mapping=ren),
+                             observed=bad[:4], signature=dict(op='remapped-solved-in-model', call=label)))
+    return out, n
+
+
 def oracle(ctx, hints, broken):
     rng = ctx['rng']
     viol, n = [], 0
@@ -529,8 +593,16 @@ def oracle(ctx, hints, broken):
         v, k = [dict(what=f'check_ge_remap raised {type(ex).__name__}: {ex}', input=dict(kind='raise', trace=traceback.format_exc()[-500:]), signature=dict(op='raise', f='check_ge_remap'))], 1
     viol += v
     n += k
+    try:
+        v, k = check_remapped_solved_in_model()
+    except Exception as ex:
+        import traceback
+        v, k = [dict(what=f'check_remapped_solved_in_model raised {type(ex).__name__}: {ex}', input=dict(kind='raise', trace=traceback.format_exc()[-500:]), signature=dict(op='raise', f='check_remapped_solved_in_model'))], 1
+    viol += v
+    n += k
     return dict(evaluations=n, violations=viol,
-                rule='simple, combined and solved blocks remapped once / chained / back / swapped / swapped-then-renamed: interface, steady_state, '
+                rule='a model containing a REMAPPED solved block: solve_impulse_linear, solve_impulse_nonlinear, impulse_linear / impulse_nonlinear with caller-supplied saved Jacobians vs the same equations written with the new names; '
+                     'simple, combined and solved blocks remapped once / chained / back / swapped / swapped-then-renamed: interface, steady_state, '
                      'jacobian (dense), impulse_linear, impulse_nonlinear vs the substituted results of the original; original unchanged; rename; '
                      'shipped one-asset household with remap before/after add/remove of heterogeneous inputs (interface, steady state, Jacobian); Jacobian input/output lists and packed matrix of every remapped block; '
                      'solve_jacobian, solve_impulse_linear, solve_impulse_nonlinear and H_U of a two-unknown composite model under five renamings (shock, output, unknown, target, swap of the two unknowns)')
@@ -538,5 +610,8 @@ def oracle(ctx, hints, broken):
 
 def replay(rp):
     c = rp.get('input') or {}
+    if c.get('kind') == 'remapped-solved-in-model':
+        v = [x for x in check_remapped_solved_in_model()[0] if x['input'].get('call') == c.get('call')]
+        return v[0] if v else None
     v = (check_het(C.Rng(0)) if c.get('kind') == 'het' else check_blocks(C.Rng(0)))[0]
     return v[0] if v else None
